@@ -90,6 +90,14 @@ func singularMessageOccursTwice(md protoreflect.MessageDescriptor, b []byte) boo
 	seen := map[int]int{}
 	for _, f := range fs {
 		fd := md.Fields().ByNumber(protoreflect.FieldNumber(f.Num))
+		if fd == nil {
+			// a message-typed extension of md is a singular message field like any other
+			for _, xt := range extensionsOf(md) {
+				if int(xt.TypeDescriptor().Number()) == f.Num {
+					fd = xt.TypeDescriptor()
+				}
+			}
+		}
 		if fd == nil || f.WT != refwire.WTLen {
 			continue
 		}
@@ -282,19 +290,68 @@ func oracleC08(c *BCase) (f *ev.Failure, bothAccept bool) {
 		return f, true
 	}
 	if !proto.Equal(got, ref) {
+		// protobuf-go itself is of two minds about an unknown field whose KEY is a non-minimal varint: its
+		// table-driven decoder (used for the concrete well-known types a generated message embeds) re-encodes
+		// the key minimally, its reflective decoder (dynamicpb, the reference here) keeps the raw bytes.  The
+		// same unknown field either way: compare with minimally re-encoded keys before calling it a difference.
+		gn, rn := proto.Clone(got).ProtoReflect(), proto.Clone(ref).ProtoReflect()
+		normUnknownKeys(gn)
+		normUnknownKeys(rn)
+		if safeEqual(gn.Interface(), rn.Interface()) {
+			return nil, true
+		}
 		// which part disagrees: the known fields or only the retained unknown bytes?
 		kind := "silent-disagreement-known-fields"
 		g2, r2 := proto.Clone(got).ProtoReflect(), proto.Clone(ref).ProtoReflect()
 		stripUnknown(g2)
 		stripUnknown(r2)
-		if proto.Equal(g2.Interface(), r2.Interface()) {
-			kind = "silent-disagreement-unknown-bytes"
-		} else if singularMessageOccursTwice(mt.Desc, c.Bytes) {
+		if singularMessageOccursTwice(mt.Desc, c.Bytes) {
 			kind = "merge-semantics" // (the recorded C06 finding, reached through a mutated input)
+		} else if proto.Equal(g2.Interface(), r2.Interface()) {
+			kind = "silent-disagreement-unknown-bytes"
 		}
 		return ev.Failf(sigOf("C08", kind, mt), "both decoders accept %.80x [%s] but the generated Unmarshal gives %.200v (unknown %x) and the reference %.200v (unknown %x)", c.Bytes, c.Note, g2.Interface(), []byte(got.GetUnknown()), r2.Interface(), []byte(ref.GetUnknown())), true
 	}
 	return nil, true
+}
+
+// safeEqual is proto.Equal for messages whose unknown bytes may be garbage (protobuf-go's comparison of
+// unknown fields assumes well-formed bytes and panics otherwise): a panic counts as "not equal".
+func safeEqual(a, b proto.Message) (eq bool) {
+	defer func() {
+		if recover() != nil {
+			eq = false
+		}
+	}()
+	return proto.Equal(a, b)
+}
+
+// normUnknownKeys rewrites the unknown fields of m (and of every message below it) with minimally encoded keys;
+// bytes that do not parse as a field sequence are left alone.
+func normUnknownKeys(m protoreflect.Message) {
+	if u := []byte(m.GetUnknown()); len(u) > 0 {
+		if fs, err := refwire.Walk(u); err == nil {
+			var out []byte
+			for _, f := range fs {
+				out = refwire.AppendKey(out, f.Num, f.WT)
+				out = append(out, u[f.ValStart:f.End]...)
+			}
+			m.SetUnknown(out)
+		}
+	}
+	m.Range(func(fd protoreflect.FieldDescriptor, v protoreflect.Value) bool {
+		switch {
+		case fd.IsMap() && fd.MapValue().Message() != nil:
+			v.Map().Range(func(_ protoreflect.MapKey, mv protoreflect.Value) bool { normUnknownKeys(mv.Message()); return true })
+		case fd.IsList() && fd.Message() != nil:
+			for i := 0; i < v.List().Len(); i++ {
+				normUnknownKeys(v.List().Get(i).Message())
+			}
+		case fd.Message() != nil && !fd.IsMap() && !fd.IsList():
+			normUnknownKeys(v.Message())
+		}
+		return true
+	})
 }
 
 func stripUnknown(m protoreflect.Message) {
